@@ -21,8 +21,16 @@ class Decoder:
         for _ in range(depth):
             self.defs.append(keccak(self.defs[-1] + self.defs[-1]))
         self.depth = depth
+        self.budget = 0
+        self.broken = False
 
     def node(self, h, height):
+        # a broken tree may not contain the default subtrees where they belong: never walk more
+        # than a bounded number of nodes (the poison leaf makes the trace fail its clauses)
+        self.budget += 1
+        if self.budget > 8000:
+            self.broken = True
+            return ["V", 238, 6]
         if h == self.defs[height]:
             return ["D", height]
         body = self.db.get(h)
@@ -38,9 +46,14 @@ class Decoder:
             return ["V", 238, 9]
         return ["P", self.node(body[:32], height - 1), self.node(body[32:], height - 1)]
 
+    def top(self, h, height):
+        """decode one subtree, with its own node budget"""
+        self.budget = 0
+        return self.node(h, height)
+
     def seq(self, hashes):
         """hashes root -> leaf: element i (0-based) is a node of height depth-1-i"""
-        return [self.node(h, self.depth - 1 - i) for i, h in enumerate(hashes)]
+        return [self.top(h, self.depth - 1 - i) for i, h in enumerate(hashes)]
 
 
 def near(rng, key):
@@ -79,7 +92,7 @@ def gen_trace(mod, rng, ksize):
     ev = []
 
     def observe():
-        st = {"root": dec.node(tree.root_hash, depth), "look": [], "isinitial": tree.root_hash == initial,
+        st = {"root": dec.top(tree.root_hash, depth), "look": [], "isinitial": tree.root_hash == initial,
               "pvalue": [0, 0], "pbranch": [], "prootok": True}
         for k in pool:
             try:
@@ -141,6 +154,11 @@ def gen_trace(mod, rng, ksize):
                     same = False                    # even the complete list is refused
         ev.append({"a": a, "k": bits_of(k), "v": list(unval(v)), "m": m, "upd": dec.seq(upd), "refused": refused,
                    "proofsame": same, "st": observe()})
+    if dec.broken:
+        # the database does not hold a sparse tree over this default (default subtrees are not where
+        # they belong): not expressible as a trace, reported as it is
+        return {"dflt": list(unval(default)), "depth": depth, "ev": [], "broken": True,
+                "calls": [[e["a"], e["k"], e["v"]] for e in ev]}
     return {"dflt": list(unval(default)), "depth": depth, "ev": ev}
 
 
